@@ -38,7 +38,7 @@ ASSUMPTIONS = [
 ]
 PROBES = ("suppress_then_raise", "replacement_chain", "enter_failed", "callback_cannot_suppress", "aclose_midway",
           "pop_all", "unwind_again", "block_raises", "sync_cm", "pushed_callable", "ambient_exception", "falsy_exception",
-          "stack_reused_after_unwind", "pop_all_inside_an_exit", "exit_raises_stopiteration", "dual_protocol_manager")
+          "stack_reused_after_unwind", "pop_all_inside_aenter", "pop_all_inside_an_exit", "exit_raises_stopiteration", "dual_protocol_manager")
 
 KINDS = ("async_cm", "sync_cm", "push_async_cm", "push_sync_cm", "push_async_fn", "push_sync_fn",
          "callback_sync", "callback_async")
@@ -104,7 +104,7 @@ def model_unwind(entries, exc):
             # the exit registers one more exit on the stack being unwound: that one is on top now and runs next, once
             extra = Entry()
             extra.name, extra.kind, extra.behave, extra.susp = e.name + "+", "push_sync_fn", "falsy", 0
-            extra.enter_fails, extra.args, extra.dual = False, (), False
+            extra.enter_fails, extra.args, extra.dual, extra.same_as_previous = False, (), False, False
             todo.append(extra)
     if type(exc) is tuple and exc[0] == "stop":
         exc = "RuntimeError"  # leaving the stack's own coroutine, the interpreter converts it (PEP 479)
@@ -126,11 +126,12 @@ def tag(exc):
 
 
 class Entry:
-    __slots__ = ("name", "kind", "behave", "susp", "enter_fails", "args", "dual")
+    __slots__ = ("name", "kind", "behave", "susp", "enter_fails", "args", "dual", "same_as_previous")
 
     def describe(self):
         return {"name": self.name, "kind": self.kind, "exit": self.behave, "suspends": self.susp,
-                "enter_fails": self.enter_fails, "also_offers_sync_protocol": self.dual}
+                "enter_fails": self.enter_fails, "also_offers_sync_protocol": self.dual,
+                "same_object_as_previous_entry": self.same_as_previous}
 
 
 def gen_entries(ch, n):
@@ -144,6 +145,7 @@ def gen_entries(ch, n):
         e.enter_fails = e.kind in ("async_cm", "sync_cm") and ch.chance(1, 10)
         e.args = (i, "x") if not ch.chance(1, 3) else ()  # callbacks with keyword arguments only as well
         e.dual = e.kind in ("async_cm", "push_async_cm") and ch.chance(1, 4)
+        e.same_as_previous = False
         out.append(e)
     return out
 
@@ -160,6 +162,9 @@ class Env:
         self.exc_type = exc_type
         self.current_stack = None  # the stack being unwound right now (for an exit that calls pop_all on it)
         self.moved = []
+        self.pop_in_enter = None  # name of the entry whose __aenter__ calls pop_all() on the stack entering it
+        self.popped_in_enter = []
+        self.registering_stack = None
 
     async def pause(self, n):
         for _ in range(n):
@@ -199,6 +204,9 @@ class Env:
                 await env.pause(e.susp)
                 if e.enter_fails:
                     raise env.exc_type(("enter", e.name))
+                if env.pop_in_enter == e.name:
+                    # the manager splits off everything registered so far while it is being entered
+                    env.popped_in_enter.append(env.registering_stack.pop_all())
                 return e.name
 
             async def __aexit__(self, et, ev, tb):
@@ -318,9 +326,16 @@ def outcome_of(fn_result):
     return fn_result
 
 
+def make_objects(env, entries):
+    objs = []
+    for e in entries:
+        objs.append(objs[-1] if e.same_as_previous else env.make(e))
+    return objs
+
+
 async def run_program_stack(entries, env, block_raises, res, ambient=False):
     L = lib()
-    objs = [env.make(e) for e in entries]
+    objs = make_objects(env, entries)
 
     async def go():
         async with L.ExitStack() as stack:
@@ -340,7 +355,7 @@ async def run_program_stack(entries, env, block_raises, res, ambient=False):
 
 
 async def run_program_nested(entries, env, block_raises, res, ambient=False):
-    objs = [env.make(e) for e in entries]
+    objs = make_objects(env, entries)
 
     async def body():
         env.log.append(("body",))
@@ -363,6 +378,14 @@ def gen(ch):
     sc.interrupt = ch.draw(4)
     n = ch.draw(5)
     sc.entries = gen_entries(ch, n)
+    if sc.mode == "program":
+        # the very same exit object registered twice in a row: it runs twice, like "async with cm: async with cm:"
+        for i in range(1, n):
+            prev, e = sc.entries[i - 1], sc.entries[i]
+            if prev.kind in ("async_cm", "push_async_cm", "push_async_fn") and not prev.enter_fails and ch.chance(1, 8):
+                e.name, e.behave, e.susp, e.dual, e.enter_fails = prev.name, prev.behave, prev.susp, prev.dual, False
+                e.kind = "push_async_fn" if prev.kind == "push_async_fn" else "push_async_cm"
+                e.same_as_previous = True
     sc.block_raises = ch.chance(1, 2)
     sc.block_genexit = ch.chance(1, 8)  # the block ends with exactly GeneratorExit (tagged) instead of an Exception
     sc.ambient = ch.chance(1, 3)   # everything happens while the caller handles an unrelated exception
@@ -390,6 +413,12 @@ def gen(ch):
             if op:
                 steps.append((i, ("aclose", "pop_all")[op - 1]))
         sc.steps = steps
+        # the pop_all at one position may happen *inside* the __aenter__ of the manager entered there
+        sc.pop_in_enter = None
+        for pos, op in steps:
+            if op == "pop_all" and pos < n and sc.entries[pos].kind == "async_cm" and ch.chance(1, 2):
+                sc.pop_in_enter = pos
+                break
         sc.again = ch.chance(1, 2)
         sc.close_popped = ch.chance(2, 3)
         # the stacks split off by pop_all are closed at the very end, or already inside the block before it is left
@@ -397,7 +426,8 @@ def gen(ch):
     return sc
 
 
-async def run_history(sc, env, res):
+async def run_history(sc, env, res, out_probe=None):
+    out_probe = {} if out_probe is None else out_probe
     L = lib()
     objs = [env.make(e) for e in sc.entries]
     by_name = {e.name: e for e in sc.entries}
@@ -431,12 +461,21 @@ async def run_history(sc, env, res):
                             await aclose_of(stack, groups[-1], "aclose")
                             marks.append(("unwound", list(groups[-1])))
                             groups.append([])
+                        elif sc.pop_in_enter == i:
+                            # done by the manager registered at this position, from inside its __aenter__
+                            env.pop_in_enter = sc.entries[i].name
                         else:
                             env.log.append(("mark", "pop_all"))
                             popped.append((stack.pop_all(), list(groups[-1])))
                             groups.append([])
                 if i < len(sc.entries):
+                    env.registering_stack = stack
                     await register(stack, sc.entries[i], objs[i])
+                    if env.popped_in_enter:
+                        popped.append((env.popped_in_enter.pop(), list(groups[-1])))
+                        groups.append([])
+                        env.pop_in_enter = None
+                        out_probe["pop_all_inside_aenter"] = 1
                     groups[-1].append(sc.entries[i].name)
             if sc.close_popped and sc.close_popped_early:
                 while popped:
@@ -554,7 +593,7 @@ def execute(st, ctx):
                 elif sc.block_raises and a[0] == "normal":
                     out.violate("C14.outcome_differs", sig + ("normal_but_block_raised",), describe())
                 for name, c in env_a.count.items():
-                    if c != 1:
+                    if c != sum(1 for e in sc.entries if e.name == name):
                         out.violate("C14.exit_ran_twice", sig, describe())
                 entered = {x[1] for x in env_a.log if x[0] == "enter"}
                 for e in sc.entries:
@@ -567,7 +606,7 @@ def execute(st, ctx):
                     out.faults["enter_raises"] = 1
                     out.fault_free = False
     else:
-        sim.spawn(run_history(sc, env_a, res_a))
+        sim.spawn(run_history(sc, env_a, res_a, out.probes))
         run_sim(sim)
         sig = ("history",)
         if sim.deadlock:
